@@ -84,57 +84,81 @@ def mkCls (name : String) (req : List String) (fields : List (String × FieldDec
 def foo : FieldDecl := mkCls "Foo" ["a"] [("a", .integer {})]
 def str0 : FieldDecl := .string none none none
 
-/-- finding `crash:enum-mapping`: a class with a non-optional `AnyOf` field is classified eligible
-    (`not_nested`), the regular path accepts `{"m": 1}`, the trusted path raises AttributeError -/
+/-! #### fixed by d9ee4f9 (kept as positive theorems about today's model) -/
+
+/-- fixed `crash:enum-mapping` (d9ee4f9): a class with a non-optional `AnyOf` field no longer makes
+    `_get_enum_mapping` raise; it is `not_nested`, inside the proved region, and both paths agree -/
 def cxCrash : FieldDecl := mkCls "A" ["m"] [("m", .anyOf [.integer {}, str0])]
-theorem counterexample_crash_enum_mapping :
-    wfDecl cxCrash = true ∧ eligible noMappers cxCrash = true
-    ∧ isOk (deserialize exO {} cxCrash (.dict [(.str "m", .int 1)])) = true
-    ∧ isErr (deserializeTrusted noMappers exO {} cxCrash (.dict [(.str "m", .int 1)])) = true := by
+theorem fixed_crash_enum_mapping :
+    wfDecl cxCrash = true ∧ verdictOf noMappers cxCrash = .lvl .flat ∧ tsafeCls cxCrash = true
+    ∧ plainDoc {} cxCrash (.dict [(.str "m", .int 1)]) = true
+    ∧ (match deserialize exO {} cxCrash (.dict [(.str "m", .int 1)]),
+             deserializeTrusted noMappers exO {} cxCrash (.dict [(.str "m", .int 1)]) with
+        | .ok x, .ok y => eqv x y
+        | _, _ => false) = true := by
   decide
 
-/-- finding `optional-unchecked:non-none-option`: `Optional[Map[String, Foo]]` is classified
-    eligible although the non-None option is never inspected; the trusted instance holds the raw
-    dict, the regular one a `Foo` -/
+/-- fixed `optional-unchecked:non-none-option` (d9ee4f9): `Optional[Map[String, Foo]]` is classified
+    through its non-None option and is no longer eligible: the flag changes nothing -/
 def cxOptMap : FieldDecl := mkCls "A" ["m"] [("m", .anyOf [.mapOf str0 foo {}, .noneF])]
 def cxOptMapDoc : PyVal := .dict [(.str "m", .dict [(.str "k", .dict [(.str "a", .int 1)])])]
-theorem counterexample_optional_unchecked :
-    wfDecl cxOptMap = true ∧ eligible noMappers cxOptMap = true ∧ isJson cxOptMapDoc = true
-    ∧ (match deserialize exO {} cxOptMap cxOptMapDoc, deserializeTrusted noMappers exO {} cxOptMap cxOptMapDoc with
-        | .ok x, .ok y => !eqv x y
+theorem fixed_optional_unchecked :
+    eligible noMappers cxOptMap = false ∧ verdictOf noMappers cxOptMap = .no
+    ∧ (match deserialize exO {} cxOptMap cxOptMapDoc, deserializeWithFlag noMappers exO {} true cxOptMap cxOptMapDoc with
+        | .ok x, .ok y => eqv x y && PyVal.pyEq x y
         | _, _ => false) = true := by
   decide
 
-/-- finding `optional-unchecked:none-first`: `_extract_non_nonefield_from_optional` returns
-    `fields[0]` in both branches, so `AnyOf[NoneField, Foo]` keeps the raw dict -/
+/-- fixed `optional-unchecked:none-first` (d9ee4f9): `AnyOf[NoneField, Foo]` is read through `Foo` -/
 def cxNoneFirst : FieldDecl := mkCls "A" ["m"] [("m", .anyOf [.noneF, foo])]
-theorem counterexample_optional_none_first :
-    eligible noMappers cxNoneFirst = true
+theorem fixed_optional_none_first :
+    eligible noMappers cxNoneFirst = true ∧ tsafeCls cxNoneFirst = true
     ∧ (match deserialize exO {} cxNoneFirst (.dict [(.str "m", .dict [(.str "a", .int 1)])]),
              deserializeTrusted noMappers exO {} cxNoneFirst (.dict [(.str "m", .dict [(.str "a", .int 1)])]) with
-        | .ok x, .ok y => !eqv x y
+        | .ok x, .ok y => eqv x y
         | _, _ => false) = true := by
   decide
 
-/-- finding `unnormalised:array-of-enum`: `Array[Enum[Color]]` keeps the member names -/
+/-- fixed `unnormalised:array-of-enum` (d9ee4f9): `Array[Enum[Color]]` makes the class `nested` and
+    is mapped element by element -/
 def cxArrEnum : FieldDecl := mkCls "A" ["m"] [("m", .seqOf .list (.enumCls "Color" ["RED", "BLUE"]) {})]
-theorem counterexample_array_of_enum :
-    eligible noMappers cxArrEnum = true
+theorem fixed_array_of_enum :
+    verdictOf noMappers cxArrEnum = .lvl .nested ∧ tsafeCls cxArrEnum = true
     ∧ (match deserialize exO {} cxArrEnum (.dict [(.str "m", .list [.str "RED"])]),
              deserializeTrusted noMappers exO {} cxArrEnum (.dict [(.str "m", .list [.str "RED"])]) with
+        | .ok x, .ok y => eqv x y
+        | _, _ => false) = true := by
+  decide
+
+/-- fixed `dropped:set-items` (d9ee4f9): `Set[Number]` keeps its items -/
+def cxSetNumber : FieldDecl := mkCls "A" ["m"] [("m", .setOf false (.number {}) {})]
+theorem fixed_set_items_dropped :
+    eligible noMappers cxSetNumber = true ∧ tsafeCls cxSetNumber = true
+    ∧ (match deserialize exO {} cxSetNumber (.dict [(.str "m", .list [.int 1, .int 1, .float ⟨5, 2⟩])]),
+             deserializeTrusted noMappers exO {} cxSetNumber (.dict [(.str "m", .list [.int 1, .int 1, .float ⟨5, 2⟩])]) with
+        | .ok x, .ok (.inst "A" [("m", .set _ ys)]) => eqv x (.inst "A" [("m", .set false ys)]) && ys.length == 2
+        | _, _ => false) = true := by
+  decide
+
+/-- finding `unnormalised:anyof-enum`: a non-optional `AnyOf` is kept raw, so an Enum-class option
+    given a member name stays a string where the regular path stores the member -/
+def cxAnyEnum : FieldDecl := mkCls "A" ["m"] [("m", .anyOf [.enumCls "Color" ["RED", "BLUE"], .integer {}])]
+theorem counterexample_anyof_enum :
+    eligible noMappers cxAnyEnum = true
+    ∧ (match deserialize exO {} cxAnyEnum (.dict [(.str "m", .str "RED")]),
+             deserializeTrusted noMappers exO {} cxAnyEnum (.dict [(.str "m", .str "RED")]) with
         | .ok x, .ok y => !eqv x y
         | _, _ => false) = true := by
   decide
 
-/-- finding `dropped:set-items`: the Set branch of `_remap_input` assigns nothing for items that
-    are neither Integer/String/Float/Boolean/NoneField nor Serializable nor a class: `Set[Number]`
-    loses the field -/
-def cxSetNumber : FieldDecl := mkCls "A" ["m"] [("m", .setOf false (.number {}) {})]
-theorem counterexample_set_items_dropped :
-    eligible noMappers cxSetNumber = true
-    ∧ (match deserialize exO {} cxSetNumber (.dict [(.str "m", .list [.int 1])]),
-             deserializeTrusted noMappers exO {} cxSetNumber (.dict [(.str "m", .list [.int 1])]) with
-        | .ok x, .ok (.inst "A" []) => !eqv x (.inst "A" [])
+/-- finding `unnormalised:optional-immutable-set`: the trusted instance of `Optional[ImmutableSet[X]]`
+    holds a plain set, which the ImmutableSet option no longer validates: it cannot be serialized -/
+def cxOptImmSet : FieldDecl := mkCls "A" ["m"] [("m", .anyOf [.setOf true (.integer {}) {}, .noneF])]
+theorem counterexample_optional_immutable_set :
+    eligible noMappers cxOptImmSet = true
+    ∧ (match deserialize exO {} cxOptImmSet (.dict [(.str "m", .list [.int 1])]),
+             deserializeTrusted noMappers exO {} cxOptImmSet (.dict [(.str "m", .list [.int 1])]) with
+        | .ok x, .ok y => eqv x y && isOk (serialize exO cxOptImmSet x) && isErr (serialize exO cxOptImmSet y)
         | _, _ => false) = true := by
   decide
 
@@ -221,13 +245,14 @@ theorem counterexample_set_of_structures :
 /-- the statement at full strength is false of the model (hence, by correspondence, of the code) -/
 theorem trusted_statement_false : ¬ trusted_statement := by
   intro h
-  rcases counterexample_crash_enum_mapping with ⟨h1, h2, h3, h4⟩
-  cases hx : deserialize exO {} cxCrash (.dict [(.str "m", .int 1)]) with
-  | error e => rw [hx] at h3; cases h3
+  have hc := counterexample_boolean_string.2
+  cases hx : deserialize exO {} cxBool (.dict [(.str "m", .str "True")]) with
+  | error e => rw [hx] at hc; cases hc
   | ok x =>
-    rcases h exO {} cxCrash (.dict [(.str "m", .int 1)]) x h1 h2 (by decide) hx with ⟨y, hy, _⟩
-    rw [hy] at h4
-    cases h4
+    rcases h exO {} cxBool (.dict [(.str "m", .str "True")]) x (by decide) (by decide) (by decide) hx with ⟨y, hy, he, _⟩
+    rw [hx, hy] at hc
+    simp only [he, Bool.not_true] at hc
+    cases hc
 
 /-- finding `ineligible-raises:unsupported-mapper`: a class whose mapper `_is_mapper_simple`
     refuses is not eligible, yet the flag is not a no-op: the classifier raises ValueError -/
@@ -259,13 +284,17 @@ def exInner : FieldDecl :=
 def exOuter : FieldDecl :=
   .struct { name := "Outer", required := ["kind", "items"], accepts := ["Outer"] }
     [("kind", .enumCls "Color" ["RED", "BLUE"]), ("items", .seqOf .list exInner { max := some 3 }),
-     ("best", .anyOf [exInner, .noneF]), ("ratio", .anyOf [.noneF, .float {}]), ("flags", .seqOf .list .boolean {}), ("count", .integer {})] []
+     ("best", .anyOf [exInner, .noneF]), ("ratio", .anyOf [.noneF, .float {}]), ("flags", .seqOf .list .boolean {}), ("count", .integer {}),
+     ("colors", .seqOf .list (.enumCls "Color" ["RED", "BLUE"]) {}), ("either", .anyOf [.integer {}, .string none none none]),
+     ("nums", .setOf false (.number {}) {})] []
 def exDoc : PyVal :=
   .dict [(.str "kind", .str "BLUE"),
          (.str "items", .list [.dict [(.str "id", .int 1), (.str "tags", .list [.str "a", .str "b", .str "a"]), (.str "note", .none)],
                                .dict [(.str "id", .int 2)]]),
          (.str "best", .dict [(.str "id", .int 7), (.str "note", .str "x")]),
-         (.str "ratio", .float ⟨1, 2⟩), (.str "flags", .list [.bool true]), (.str "count", .none), (.str "unused", .none)]
+         (.str "ratio", .float ⟨1, 2⟩), (.str "flags", .list [.bool true]), (.str "count", .none), (.str "unused", .none),
+         (.str "colors", .list [.str "RED", .str "BLUE"]), (.str "either", .str "x"),
+         (.str "nums", .list [.int 1, .float ⟨1, 2⟩, .int 1])]
 
 /-- a nested class tree with Enum, Array of classes, Optional class, Set, `_ignore_none`, nulls and
     an undeclared key (keep_undefined off) meets every hypothesis of `trusted_equiv_partial`, and the trusted instance
@@ -399,23 +428,36 @@ theorem fast_serialize_none (NF : List String) (cls : FieldDecl) (x : PyVal) :
 
 /-! ### counterexamples: the known findings of fast serialization -/
 
-/-- finding `fast:tuple-index`: `Tuple[Integer]` keeps `items = [Integer]` and indexes it by
-    position: a two-element tuple raises IndexError -/
+/-- fixed `fast:tuple-index` (00ca995): `Tuple[Integer]` of two elements serializes element-wise, and
+    the class is inside the proved region -/
 def cxTuple : FieldDecl := mkCls "A" ["t"] [("t", .tupleOf (.integer {}) false)]
-theorem counterexample_fast_tuple_index :
-    createOk noMappers [] cxTuple = true
-    ∧ wellFormed exO cxTuple (.inst "A" [("t", .tuple [.int 1, .int 2])]) = true
-    ∧ isOk (serialize exO cxTuple (.inst "A" [("t", .tuple [.int 1, .int 2])])) = true
-    ∧ isErr (fastSerialize noMappers [] false false cxTuple (.inst "A" [("t", .tuple [.int 1, .int 2])])) = true := by
+theorem fixed_fast_tuple_index :
+    createOk noMappers [] cxTuple = true ∧ fsafeCls [] cxTuple = true
+    ∧ fwf exO cxTuple (.inst "A" [("t", .tuple [.int 1, .int 2])]) = true
+    ∧ (match serialize exO cxTuple (.inst "A" [("t", .tuple [.int 1, .int 2])]),
+             fastSerialize noMappers [] false false cxTuple (.inst "A" [("t", .tuple [.int 1, .int 2])]) with
+        | .ok (.dict [(_, .list [.int 1, .int 2])]), .ok (.dict [(_, .list [.int 1, .int 2])]) => true
+        | _, _ => false) = true := by
   decide
 
-/-- finding `fast:positional-index`: a positional Array with surplus elements raises IndexError -/
+/-- fixed `fast:positional-index` (00ca995): a positional Array passes its surplus elements through -/
 def cxPos : FieldDecl := mkCls "A" ["t"] [("t", .seqPos .list [.integer {}] true {})]
-theorem counterexample_fast_positional_index :
+theorem fixed_fast_positional_index :
     createOk noMappers [] cxPos = true
-    ∧ wellFormed exO cxPos (.inst "A" [("t", .list [.int 1, .str "x"])]) = true
-    ∧ isOk (serialize exO cxPos (.inst "A" [("t", .list [.int 1, .str "x"])])) = true
-    ∧ isErr (fastSerialize noMappers [] false false cxPos (.inst "A" [("t", .list [.int 1, .str "x"])])) = true := by
+    ∧ (match serialize exO cxPos (.inst "A" [("t", .list [.int 1, .str "x"])]),
+             fastSerialize noMappers [] false false cxPos (.inst "A" [("t", .list [.int 1, .str "x"])]) with
+        | .ok (.dict [(_, .list [.int 1, .str "x"])]), .ok (.dict [(_, .list [.int 1, .str "x"])]) => true
+        | _, _ => false) = true := by
+  decide
+
+/-- finding `fast:positional-index:deque`: `Deque.serialize` still indexes the item fields by position:
+    a positional Deque with surplus elements raises IndexError -/
+def cxPosDeque : FieldDecl := mkCls "A" ["t"] [("t", .seqPos .deque [.integer {}] true {})]
+theorem counterexample_fast_positional_index_deque :
+    createOk noMappers [] cxPosDeque = true
+    ∧ wellFormed exO cxPosDeque (.inst "A" [("t", .deque [.int 1, .str "x"])]) = true
+    ∧ isOk (serialize exO cxPosDeque (.inst "A" [("t", .deque [.int 1, .str "x"])])) = true
+    ∧ isErr (fastSerialize noMappers [] false false cxPosDeque (.inst "A" [("t", .deque [.int 1, .str "x"])])) = true := by
   decide
 
 /-- finding `fast:compact-conditions`: `set_compact_wrapper` compacts every one-field class; the
@@ -472,13 +514,13 @@ theorem counterexample_fast_extras :
 
 theorem fast_statement_false : ¬ fast_statement := by
   intro h
-  rcases counterexample_fast_tuple_index with ⟨h1, h2, h3, h4⟩
-  have := h exO cxTuple (.inst "A" [("t", .tuple [.int 1, .int 2])]) false (by decide) h1 h2
-  simp only [serializeCompact, cxTuple, mkCls, Bool.false_and, Bool.false_eq_true, if_false] at this
-  simp only [cxTuple, mkCls] at h3 h4
+  rcases counterexample_fast_positional_index_deque with ⟨h1, h2, h3, h4⟩
+  have := h exO cxPosDeque (.inst "A" [("t", .deque [.int 1, .str "x"])]) false (by decide) h1 h2
+  simp only [serializeCompact, cxPosDeque, mkCls, Bool.false_and, Bool.false_eq_true, if_false] at this
+  simp only [cxPosDeque, mkCls] at h3 h4
   rw [this] at h4
   cases hs : serialize exO (.struct { name := "A", required := ["t"], accepts := ["A"] }
-      [("t", .tupleOf (.integer {}) false)] []) (.inst "A" [("t", .tuple [.int 1, .int 2])]) with
+      [("t", .seqPos .deque [.integer {}] true {})] []) (.inst "A" [("t", .deque [.int 1, .str "x"])]) with
   | ok j => rw [hs] at h4; cases h4
   | error e => rw [hs] at h3; cases h3
 
@@ -491,22 +533,23 @@ def exFastInner : FieldDecl :=
 def exFastOuter : FieldDecl :=
   .struct { name := "Outer", required := ["items"], accepts := ["Outer"] }
     [("items", .seqOf .list exFastInner {}), ("m", .mapOf (.string none none none) (.float {}) {}),
-     ("pair", .tuplePos [.integer {}, .boolean] false), ("best", .anyOf [.noneF, exFastInner]),
+     ("pair", .tuplePos [.integer {}, .boolean] false), ("names", .tupleOf (.string none none none) false),
+     ("best", .anyOf [.noneF, exFastInner]),
      ("q", .seqOf .deque (.number {}) {})] []
 def exFastX : PyVal :=
   .inst "Outer" [("best", .inst "Inner" [("note", .str "n"), ("id", .int 7)]),
                  ("items", .list [.inst "Inner" [("id", .int 1), ("tags", .set false [.enumv "Color" "RED"])]]),
-                 ("m", .dict [(.str "k", .float ⟨1, 2⟩)]), ("pair", .tuple [.int 1, .bool true]),
+                 ("m", .dict [(.str "k", .float ⟨1, 2⟩)]), ("pair", .tuple [.int 1, .bool true]), ("names", .tuple [.str "a", .str "b", .str "c"]),
                  ("q", .deque [.int 1, .float ⟨3, 2⟩])]
 
 /-- a class tree with nested classes, Array / Set / Map / Tuple / Deque, Enum and both Optional
     shapes, with attributes NOT in field order, meets the hypotheses; the fast document is a
-    five-key JSON object -/
+    six-key JSON object -/
 theorem fast_equiv_example :
     fsafeCls [] exFastOuter = true ∧ fwf exO exFastOuter exFastX = true
     ∧ createOk noMappers [] exFastOuter = true ∧ wellFormed exO exFastOuter exFastX = true
     ∧ (match fastSerialize noMappers [] false false exFastOuter exFastX with
-        | .ok (.dict r) => r.length == 5 && isJson (.dict r)
+        | .ok (.dict r) => r.length == 6 && isJson (.dict r)
         | _ => false) = true := by
   decide
 
